@@ -55,7 +55,7 @@ m = {
     }],
     "checks": checks,
     "not_applicable": na,
-    "notes": "228 seeded changes (seeded/) are all reported by the check of their target property; 33 neutral changes (seeded/neutral) pass all 20 checks. All checks share /verif/.build (cargo target dir, dump cache, Coq .vo files, extracted model); a file lock is held for the build steps only, so checks may be started in parallel. Genuine defects repaired by fix: commits are listed in known_findings.json.",
+    "notes": "246 seeded changes (seeded/) are all reported by the check of their target property; 33 neutral changes (seeded/neutral) pass all 20 checks. All checks share /verif/.build (cargo target dir, dump cache, Coq .vo files, extracted model); a file lock is held for the build steps only, so checks may be started in parallel. Genuine defects repaired by fix: commits are listed in known_findings.json.",
 }
 with open(os.path.join(ROOT, "MANIFEST.json"), "w") as f:
     json.dump(m, f, indent=1)
